@@ -310,6 +310,7 @@ class FuncView(object):
             self.node_defs[n.id] = ds
         self._reach()
         self._dom = None
+        self._stmt_index = None
 
     def _reach(self):
         cfg = self.cfg
@@ -361,23 +362,23 @@ class FuncView(object):
 
     # ------------------------------------------------------------------ statements
     def stmt_of(self, node):
-        """Innermost CFG statement containing ast `node`."""
-        best = None
-        for n in self.cfg.nodes:
-            st = n.ast
-            if st is None:
-                continue
-            # header-only containment for compound statements
-            for part in _header_parts(st):
-                for x in ast.walk(part):
-                    if x is node:
-                        return st
-            if st is node:
-                best = st
-        if best is None:
+        """Innermost CFG statement whose header/simple part contains ast `node`."""
+        if self._stmt_index is None:
+            idx = {}
+            for n in self.cfg.nodes:
+                st = n.ast
+                if st is None:
+                    continue
+                idx.setdefault(id(st), st)
+                for part in _header_parts(st):
+                    for x in ast.walk(part):
+                        idx[id(x)] = st
+            self._stmt_index = idx
+        st = self._stmt_index.get(id(node))
+        if st is None:
             raise AnalysisError('%s: node at line %s is not inside a CFG statement'
                                 % (self.f.where, getattr(node, 'lineno', '?')))
-        return best
+        return st
 
     # ------------------------------------------------------------------ expansion
     def expand(self, expr, stmt, depth=12, stop=None, keep=()):
